@@ -5,6 +5,7 @@
 //	                                        (gate inside the delivery goroutine, exit gate, events under m)
 //	c19 stress <seed> <episodes> <trace>    seeded stress of the real handler, every step logged for TraceSse.tla
 //	c19 net    <seed> <rounds>              churn over a real HTTP server and real clients (outcome checks only)
+//	c19 longlived <idle-seconds> <clients>  clients that just stay connected to the proxy started by StartProxy, then a broadcast
 //
 // The process is expendable: a panic inside templ's delivery goroutine kills it, which is exactly what the
 // check observes (exit status + stderr). Every line printed is flushed immediately.
@@ -27,6 +28,8 @@ func main() {
 		stressMain(os.Args[2:])
 	case "net":
 		netMain(os.Args[2:])
+	case "longlived":
+		longlivedMain(os.Args[2:])
 	default:
 		vhlib.Fatal("unknown mode %s", os.Args[1])
 	}
